@@ -647,7 +647,7 @@ U('C14', 'c14.sqrt_contract', 'lem_c14_sqrt_contract', 'pre_c14_sqrtc', None, le
 for cfg, _tier in (('abacus', 'quick'), ('stdsqrt', 'thorough')):
     for _L in range(48):
         U('C14', 'c14.acc.%s.L%02d' % (cfg, _L), HYPOT, 'pre_c14_acc', 'post_hypot_acc', replace=[K_SQRT_HYP_1ULP], cfg=cfg, engine='int', timeout=300,
-          pre_consts=[_L], split_returns=True, post_split=('post_hypot_acc_lo', 'post_hypot_acc_hi'), cxx='fixedmath::hypot($1,$2)', tier=_tier,
+          pre_consts=[_L], split_returns=True, post_split=('post_hypot_acc_lo', 'post_hypot_acc_hi'), cxx='fixedmath::hypot($1,$2)', tier=_tier, soft=True,
           note='accuracy clause for 0 <= b <= a, bit length of a.v == %d' % _L)
 U('C14', 'c14.sqrt_bound', 'lem_c14_sqrt_bound', 'pre_c14_sqrtb', None, lemma=True, cxx='lem_c14_sqrt_bound($1,$2)', **INTQ)
 
